@@ -588,6 +588,9 @@ func UnmarshalArrayYAML(value *yaml.Node) (*GeneralizedType, error) {
 				if err := v.DecodeWithOptions(&ndims, yaml.DecodeOptions{KnownFields: true}); err != nil {
 					return nil, err
 				}
+				if ndims < 0 {
+					return nil, parseError(v, "the number of dimensions cannot be negative")
+				}
 
 				dims := make(ArrayDimensions, ndims)
 				for i := range dims {
